@@ -21,6 +21,8 @@ type Obs struct {
 	Body         []byte
 	BodyErr      string
 	Trailers     []wire.Header
+	Partial      bool // the handler stopped reading the streamed body after Limit bytes
+	Limit        int
 }
 
 func (o *Obs) String() string {
@@ -33,7 +35,8 @@ func (o *Obs) String() string {
 type Echo struct {
 	Stream bool
 	Seen   []*Obs
-	Enter  func() // called first in every handler invocation
+	Enter  func()          // called first in every handler invocation
+	Limit  func(i int) int // streaming: how many body bytes the handler of invocation i reads (-1: all)
 }
 
 func (e *Echo) Handle(c context.Context, ctx *app.RequestContext) {
@@ -54,7 +57,21 @@ func (e *Echo) Handle(c context.Context, ctx *app.RequestContext) {
 		}
 		o.Headers = append(o.Headers, wire.Header{K: string(k), V: string(v)})
 	})
-	if e.Stream && ctx.Request.IsBodyStream() {
+	limit := -1
+	if e.Limit != nil {
+		limit = e.Limit(len(e.Seen))
+	}
+	if e.Stream && ctx.Request.IsBodyStream() && limit >= 0 {
+		// the handler stops after limit bytes and leaves the rest of the body to the server
+		buf := make([]byte, limit)
+		n, err := io.ReadFull(ctx.RequestBodyStream(), buf)
+		o.Body = buf[:n]
+		o.Partial = true
+		o.Limit = limit
+		if err != nil && err != io.EOF && err != io.ErrUnexpectedEOF {
+			o.BodyErr = err.Error()
+		}
+	} else if e.Stream && ctx.Request.IsBodyStream() {
 		b, err := io.ReadAll(ctx.RequestBodyStream())
 		o.Body = b
 		if err != nil {
@@ -124,6 +141,15 @@ func DiffObs(got, want *Obs) string {
 		return fmt.Sprintf("headers [%s] want [%s]", strings.ReplaceAll(wire.HeaderString(got.Headers), "\n", "|"), strings.ReplaceAll(wire.HeaderString(want.Headers), "\n", "|"))
 	case got.BodyErr != "":
 		return "body read error " + got.BodyErr
+	case got.Partial:
+		// the handler read at most Limit bytes: exactly that prefix of the body (trailers are not available yet)
+		n := got.Limit
+		if n > len(want.Body) {
+			n = len(want.Body)
+		}
+		if !bytes.Equal(got.Body, want.Body[:n]) {
+			return fmt.Sprintf("partial read of %d bytes returned %dB that are not the first %d bytes of the %dB body (first difference at %d)", got.Limit, len(got.Body), n, len(want.Body), firstDiff(got.Body, want.Body[:n]))
+		}
 	case !bytes.Equal(got.Body, want.Body):
 		return fmt.Sprintf("body %dB want %dB (first difference at %d)", len(got.Body), len(want.Body), firstDiff(got.Body, want.Body))
 	case !sameHeaders(got.Trailers, want.Trailers):
